@@ -310,6 +310,17 @@ def selftest(ctx):
         problems.append("canary log self-test failed: %r" % (log,))
     if not ctx.state["cw"].active:
         problems.append("sys.monitoring CALL watcher is not active")
+    # (4) the audit tripwires observe the marked open / compile / exec / import
+    with probes.AuditLog({"open", "exec", "compile", "import", "os.system", "subprocess.Popen"}, filter=tripfilter) as trip:
+        for fn in (lambda: open("/var/tmp/%s/x" % MARK), lambda: eval(compile("1", MARK, "eval")), lambda: __import__(MARK)):
+            try:
+                fn()
+            except Exception:  # noqa: BLE001 - the path / module does not exist, the audit event precedes the failure
+                pass
+    seen = {e for e, _ in trip.log}
+    ctx.note("tripwire_selftest_events", sorted(seen) if ctx.shard == 0 else [])
+    if not {"open", "compile", "exec", "import"} <= seen:
+        problems.append("audit tripwire self-test saw only %s" % sorted(seen))
     return problems
 
 
